@@ -98,12 +98,35 @@ class C07Monitor(jobsim.Monitor):
                 self.V("reduced-system", f"tools.solve returns parts of sizes {[np.asarray(p).size for p in parts]} for fields of sizes {sizes}", site="tools.solve.split")
             if not np.allclose(got[dof0], want, rtol=1e-13, atol=1e-15):
                 self.V("reduced-system", "tools.solve: prescribed increments are not ext0 - u0", site="tools.solve.dx0")
+            lim = float("inf")
             if dof1.size and np.all(np.isfinite(got)):
                 res_ = K11 @ got[dof1] - b
                 lim = 1e-8 * (float(abs(K11).max()) * float(np.abs(got[dof1]).max()) * np.sqrt(dof1.size) + float(np.abs(b).max())) + 1e-300
                 if np.linalg.norm(res_) > lim:
                     self.V("reduced-system", f"tools.solve: K11 dx1 = -r1 - K10 (ext0 - u0) is not satisfied (residual {np.linalg.norm(res_):.3e} > {lim:.3e})", site="tools.solve.dx1")
             self.log.count("tools-solve-checked")
+            # hand-written loop: partition once, solve the same system repeatedly (frozen tangent,
+            # several load cases): every solve satisfies the reduced system, inputs stay untouched
+            from ..kernel import adigest
+
+            rvec = -np.asarray(it["b"], dtype=float)
+            system = fem.solve.partition(xo, K, dof1, dof0, rvec.copy())
+            digs = [adigest(a.toarray() if hasattr(a, "toarray") else np.asarray(a)) for a in system]
+            e0 = np.array(ext0, dtype=float, copy=True)
+            sols = [np.asarray(fem.solve.solve(*system, e0)).ravel() for _ in range(3)]
+            for k_, a in enumerate(system):
+                if adigest(a.toarray() if hasattr(a, "toarray") else np.asarray(a)) != digs[k_]:
+                    self.V("reduced-system", f"solve.solve modified entry {k_} of the partitioned system in place", site="solve.solve.inputs")
+            if not np.array_equal(e0, ext0):
+                self.V("reduced-system", "solve.solve modified the prescribed values in place", site="solve.solve.inputs")
+            for n_, sol in enumerate(sols):
+                if np.all(np.isfinite(sol)) and dof1.size:
+                    res_ = K11 @ sol[dof1] - b
+                    if np.linalg.norm(res_) > lim:
+                        self.V("reduced-system", f"solve.solve call {n_ + 1} on the same partitioned system does not satisfy the reduced system (residual {np.linalg.norm(res_):.3e} > {lim:.3e})", site="solve.solve.repeated")
+                if not np.allclose(sol[dof0], want, rtol=1e-13, atol=1e-15):
+                    self.V("reduced-system", "solve.solve: prescribed increments are not ext0 - u0", site="solve.solve.dx0")
+            self.log.count("partition-once-solve-thrice-checked")
 
     # -- results -----------------------------------------------------------------------------
     def on_substep_end(self, eng, c):
